@@ -7,19 +7,7 @@ let hex_of_bytes l = hex_encode (List.map int_of_n l)
 let ob s = match s with "-" -> None | "1" -> Some true | _ -> Some false
 let plain_text (l : n list) = List.for_all (fun b -> let c = int_of_n b in c = 10 || (c >= 32 && c < 127)) l
 (* the one class of ANSI escape sequences whose removal is decided here: colour / style sequences ESC [ digits-and-semicolons m
-   in otherwise plain text.  [strip_sgr] removes exactly those; [sgr_text] says that a payload is in the class. *)
-let rec sgr_tail = function
-  | c :: r when (let x = int_of_n c in (x >= 48 && x <= 57) || x = 59) -> sgr_tail r
-  | c :: r when int_of_n c = 109 -> Some r
-  | _ -> None
-let rec strip_sgr (l : n list) : n list = match l with
-  | a :: b :: r when int_of_n a = 27 && int_of_n b = 91 -> (match sgr_tail r with Some r' -> strip_sgr r' | None -> a :: strip_sgr (b :: r))
-  | a :: r -> a :: strip_sgr r
-  | [] -> []
-let rec sgr_text (l : n list) = match l with
-  | a :: b :: r when int_of_n a = 27 && int_of_n b = 91 -> (match sgr_tail r with Some r' -> sgr_text r' | None -> false)
-  | a :: r -> (let c = int_of_n a in c = 10 || (c >= 32 && c < 127)) && sgr_text r
-  | [] -> true
+   in otherwise plain text -- strip_sgr / sgr_text are the extracted Coq definitions (Ansi.v; C13_strip_exactly_colour_sequences) *)
 let find_single pat l =
   (* first offset at which pat occurs, if single_at holds there *)
   let n = List.length l in
